@@ -2,6 +2,7 @@
 from __future__ import annotations
 
 import ast
+import re
 from typing import Dict, List, Optional, Set, Tuple
 
 from ..flow import AnalysisError, Flow, Resolver
@@ -137,7 +138,18 @@ def r11_1(ctx):
     # inversion semantics
     a_blk, u_blk = steps[0]["_block"] or [], steps[1]["_block"] or []
     construct = "Kconfig._load_config/assignment through an inverted alias swaps y and n for bools only"
-    inv = [n for s in a_blk for n in ast.walk(s) if isinstance(n, ast.If) and "is_inversion(name)" in ast.unparse(n.test)]
+    from .common import expand_locals
+
+    def _expanded_if(n: ast.If) -> ast.If:
+        """the `if` with explaining variables of its test read through (`is_inv = ...is_inversion(name)`), and `sym` read as
+        `new_sym` when the test stands behind `sym = new_sym` in the resolution block"""
+        t = expand_locals(f.node, n.test, depth=2)
+        if any(isinstance(a, ast.Assign) and ast.unparse(a.targets[0]) == "sym" and ast.unparse(a.value) == "new_sym" and a.lineno < n.lineno for s_ in a_blk for a in ast.walk(s_)):
+            t = re.sub(r"\bsym\.orig_type\b", "new_sym.orig_type", t)
+        m = ast.If(test=ast.parse(t, mode="eval").body, body=n.body, orelse=n.orelse)
+        return ast.copy_location(m, n)
+    inv = [_expanded_if(n) for s in a_blk for n in ast.walk(s) if isinstance(n, ast.If)]
+    inv = [n for n in inv if "is_inversion(name)" in ast.unparse(n.test)]
     ok = bool(inv) and "new_sym.orig_type == BOOL" in _conjuncts(inv[0].test) and \
         any(isinstance(s, ast.Assign) and ast.unparse(s.targets[0]) == "val" and ast.unparse(s.value).replace('"', "'") == "'n' if val.startswith('y') else 'y'"
             for s in inv[0].body)
@@ -155,7 +167,9 @@ def r11_1(ctx):
         ast.unparse(uses[0].value).replace('"', "'") == "_deprecated_unset_val if _deprecated_unset_val is not None else 'n'"
     if ok:
         gs = fl.guards_at(sets[0]) or set()
-        ok = any(k in ("is_inv", "self._deprecated_options.is_inversion(name)") and p for k, p in gs)
+        ok = any(k in ("is_inv", "self._deprecated_options.is_inversion(name)") and p for k, p in gs) or any(
+            p and k.isidentifier() and any(isinstance(a, ast.Assign) and ast.unparse(a.targets[0]) == k and ast.unparse(a.value) == "self._deprecated_options.is_inversion(name)"
+                                            for a in ast.walk(f.node)) for k, p in gs)
     (ctx.ok(construct, f.loc(rb[1])) if ok else ctx.bad(construct, "unset lines of inverted aliases no longer load as y", f.loc(rb[1])))
 
 
